@@ -35,6 +35,7 @@ type Env struct {
 	pkg   *types.Package
 	scope string // non-empty: reading a callee's contract at a call site; its call ghosts are its own
 	isOld bool
+	oldBinds map[string]specBinding // bindings to use inside old() (captured variables of a closure callee)
 }
 
 // ghostKey scopes the per-activation call ghosts (called/calledWith/returned count the direct
@@ -445,6 +446,9 @@ func (env *Env) inOld() *Env {
 		n.st = env.old
 	}
 	n.isOld = true
+	if env.oldBinds != nil {
+		n.binds = env.oldBinds
+	}
 	return &n
 }
 
@@ -461,6 +465,18 @@ func (env *Env) call(e *Expr) SV {
 	bt := types.Type(types.Typ[types.Bool])
 	it := types.Type(types.Typ[types.Int])
 	switch e.Name {
+	case "in":
+		// in(p): the entry value of parameter p (needed where a local shadows the parameter)
+		if len(e.Args) != 1 || e.Args[0].Kind != "ident" {
+			return env.fail("in(parameter)")
+		}
+		if b, ok := env.binds[e.Args[0].Name]; ok {
+			return SV{T: x.term(st, b.V, b.Ty), Ty: b.Ty}
+		}
+		if pv, ok := x.params[e.Args[0].Name]; ok && env.fn == x.fn {
+			return SV{T: x.term(st, pv, x.paramType(e.Args[0].Name)), Ty: x.paramType(e.Args[0].Name)}
+		}
+		return env.fail("no parameter %s", e.Args[0].Name)
 	case "old":
 		o := env.inOld()
 		// parameters keep their entry values in old(); locals are not available
@@ -535,6 +551,25 @@ func (env *Env) call(e *Expr) SV {
 		a := arg(0)
 		x.strFacts(st, a.T)
 		return SV{T: App("dw", SInt, a.T), Ty: it}
+	case "content":
+		// content(r): ghost contents of an io.Reader value built by the library
+		r := Select(st.heapArr(ghRd, heapSorts[ghRd]), arg(0).T)
+		x.strFacts(st, r)
+		return SV{T: r, Ty: types.Typ[types.String]}
+	case "written":
+		r := x.bufGet(st, arg(0).T)
+		x.strFacts(st, r)
+		return SV{T: r, Ty: types.Typ[types.String]}
+	case "sumdw":
+		// sumdw(slice, k, "field"): sum of dw(slice[i].field) for 0 <= i < k
+		if len(e.Args) != 3 || e.Args[2].Kind != "str" {
+			return env.fail("sumdw(slice, k, \"field\")")
+		}
+		sl, k := arg(0), arg(1)
+		if sl.Ty == nil {
+			return env.fail("sumdw needs a typed slice")
+		}
+		return env.sumdw(sl, k.T, e.Args[2].Lit)
 	case "closed":
 		return SV{T: x.closedAt(st, st.heapArr(ghClosed, heapSorts[ghClosed]), arg(0).T), Ty: bt}
 	case "sent":
@@ -632,6 +667,26 @@ func (env *Env) call(e *Expr) SV {
 			return env.fail("%s(i, lo, hi, body)", e.Name)
 		}
 		lo, hi := arg(1), arg(2)
+		if lv, ok1 := lo.T.IntVal(); ok1 {
+			if hv, ok2 := hi.T.IntVal(); ok2 && lv.IsInt64() && hv.IsInt64() && hv.Int64()-lv.Int64() <= 16 {
+				// literal bounds: expand
+				var parts []*Term
+				saved, had := env.binds[e.Args[0].Name]
+				for i := lv.Int64(); i < hv.Int64(); i++ {
+					env.binds[e.Args[0].Name] = specBinding{Val{T: IntLit(i)}, it}
+					parts = append(parts, env.asBool(env.eval(e.Args[3])))
+				}
+				if had {
+					env.binds[e.Args[0].Name] = saved
+				} else {
+					delete(env.binds, e.Args[0].Name)
+				}
+				if e.Name == "forall" {
+					return SV{T: And(parts...), Ty: bt}
+				}
+				return SV{T: Or(parts...), Ty: bt}
+			}
+		}
 		bv := Var("bv!"+e.Args[0].Name, SInt)
 		saved, had := env.binds[e.Args[0].Name]
 		env.binds[e.Args[0].Name] = specBinding{Val{T: bv}, it}
@@ -727,4 +782,50 @@ func (env *Env) lookupType(name string) types.Type {
 		return types.NewPointer(t)
 	}
 	return t
+}
+
+// sumdw: Σ_{i<k} dw(slice[i].field), as an uninterpreted function of (element array, offset,
+// k) with its defining equations instantiated at the terms that occur: fully for a literal
+// k, one step otherwise.
+func (env *Env) sumdw(sl SV, k *Term, field string) SV {
+	x := env.x
+	u, ok := sl.Ty.Underlying().(*types.Slice)
+	if !ok {
+		return env.fail("sumdw of non-slice")
+	}
+	ek := x.elemKey(u.Elem())
+	arr := Select(env.st.heapArr(ek, heapSorts[ek]), sliceAcc(sl.T, 0))
+	off := sliceAcc(sl.T, 1)
+	fname := "sumdw!" + sanitize(string(arr.Sort)) + "!" + field
+	if _, known := theU.funcs[fname]; !known {
+		theU.DeclFunc(fname, SInt, arr.Sort, SInt, SInt)
+		// monotone in the upper bound (a consequence of dw >= 0, provable by induction on b-a;
+		// stated as an axiom of the spec function)
+		theU.funcAxioms[fname] = fmt.Sprintf("(assert (forall ((a %s) (o Int) (i Int) (j Int)) (! (=> (and (<= 0 i) (<= i j)) (<= (%s a o i) (%s a o j))) :pattern ((%s a o i) (%s a o j)))))\n",
+			arr.Sort, fname, fname, fname, fname)
+	}
+	elemDw := func(i *Term) *Term {
+		ev := SV{T: Select(arr, Add(off, i)), Ty: u.Elem()}
+		f := env.fieldOf(ev, field)
+		x.strFacts(env.st, f.T)
+		return App("dw", SInt, f.T)
+	}
+	it := types.Type(types.Typ[types.Int])
+	if n, isLit := k.IntVal(); isLit && n.IsInt64() && n.Int64() >= 0 && n.Int64() <= 8 {
+		var sum *Term = Zero
+		for i := int64(0); i < n.Int64(); i++ {
+			sum = Add(sum, elemDw(IntLit(i)))
+		}
+		return SV{T: sum, Ty: it} // literal bound: the sum itself, no function symbol
+	}
+	t := App(fname, SInt, arr, off, k)
+	env.st.add(Implies(Le(k, Zero), Eq(t, Zero)))
+	km1 := Sub(k, One)
+	env.st.add(Implies(Gt(k, Zero), Eq(t, Add(App(fname, SInt, arr, off, km1), elemDw(km1)))))
+	env.st.add(Implies(Le(km1, Zero), Eq(App(fname, SInt, arr, off, km1), Zero)))
+	env.st.add(Ge(t, Zero), Ge(App(fname, SInt, arr, off, km1), Zero))
+	// successor unfolding (the sum is a total function of the element array)
+	kp1 := Add(k, One)
+	env.st.add(Implies(Ge(k, Zero), Eq(App(fname, SInt, arr, off, kp1), Add(t, elemDw(k)))))
+	return SV{T: t, Ty: it}
 }
